@@ -91,6 +91,12 @@ def combos(tier):
             C.append(dict(base, sizes="1,100,17000"))
             C.append(dict(base, cauth=1, sizes="1,3000"))
             C.append(dict(base, cauth=1, resume="ticket", sizes="2"))
+    # RSASSA-PSS signed certificates (rsaEncryption keys): TLS 1.3 both roles with and without client authentication; TLS 1.2 only where
+    # MatrixSSL is the one that verifies (it does not present PSS-signed certificates below TLS 1.3: stated limit)
+    for role in ("client", "server"):
+        for ca_ in (0, 1):
+            C.append(dict(role=role, ver="T13", suite=hex(0x1301), oname="TLS_AES_128_GCM_SHA256", key="pss", certdir=EDDIR, cauth=ca_, sizes="1,3000"))
+    C.append(dict(role="client", ver="T12", suite=hex(0xc02f), oname="ECDHE-RSA-AES128-GCM-SHA256", key="pss", certdir=EDDIR, sizes="1,3000"))
     # larger keys: P-384 / P-521 ECDSA and RSA-3072 identities under RSA-4096 / P-384 / P-521 roots (SHA-384 / SHA-512 certificate signatures),
     # client authentication on, TLS 1.2 and 1.3, both roles
     for leaf, lkey, root, on12, s12 in (("l384", "k384L", "r384", "ECDHE-ECDSA-AES128-GCM-SHA256", 0xc02b), ("l521", "k521L", "r521", "ECDHE-ECDSA-AES256-GCM-SHA384", 0xc02c),
@@ -107,6 +113,8 @@ def make_ed_pki():
     subprocess.run(["gcc", "-O1", "-w", "-o", os.path.join(runner.ROOT, "build/certgen"), os.path.join(runner.ROOT, "harness/certgen.c"), "-lcrypto"], check=True)
     L = ["key kER ed", "key kEL ed", "cert edroot subj=EDR iss=EDR key=kER signkey=kER ca=1 ku=certSign",
          "cert edleaf subj=localhost iss=EDR key=kEL signkey=kER ca=0 ku=digSig san=DNS:localhost",
+         "key kPR rsa", "key kPL rsa", "cert proot subj=PR iss=PR key=kPR signkey=kPR ca=1 ku=certSign pad=pss",
+         "cert pleaf subj=localhost iss=PR key=kPL signkey=kPR ca=0 ku=digSig san=DNS:localhost pad=pss",
          "key k384R ec384", "key k384L ec384", "key k521R ec521", "key k521L ec521", "key k4R rsa4096", "key k4L rsa3072",
          "cert r384 subj=R384 iss=R384 key=k384R signkey=k384R ca=1 ku=certSign md=sha384", "cert l384 subj=localhost iss=R384 key=k384L signkey=k384R ca=0 ku=digSig san=DNS:localhost md=sha384",
          "cert r521 subj=R521 iss=R521 key=k521R signkey=k521R ca=1 ku=certSign md=sha512", "cert l521 subj=localhost iss=R521 key=k521L signkey=k521R ca=0 ku=digSig san=DNS:localhost md=sha512",
